@@ -16,12 +16,19 @@ def run_one(bid):
         wt = os.path.join(tmp, "wt")
         r = subprocess.run(["git", "apply", os.path.join(d, "patch.diff")], cwd=wt, capture_output=True, text=True)
         if r.returncode:
+            # the tree has moved on since the refactoring was written (later fix: commits): three-way merge on the recorded blobs
+            r = subprocess.run(["git", "apply", "-3", os.path.join(d, "patch.diff")], cwd=wt, capture_output=True, text=True)
+        if r.returncode:
             return bid, None, "patch does not apply: " + r.stderr[-200:]
         t = subprocess.run(["/venv/bin/python", "-m", "pytest", "-q", "-p", "no:cacheprovider", "-x", "--deselect", "tests/test_bic.py::test_pydantic_protocol",
                             "--deselect", "tests/test_iban.py::test_pydantic_protocol"], cwd=wt, env=dict(os.environ, PYTHONPATH=wt), capture_output=True, text=True)
         results = {}
         for p in PROPS:
-            r = subprocess.run([os.path.join(VERIF, "check"), p, "--root", wt, "--no-write", "--no-controls"], capture_output=True, text=True, cwd=VERIF)
+            try:
+                r = subprocess.run([os.path.join(VERIF, "check"), p, "--root", wt, "--no-write", "--no-controls"], capture_output=True, text=True, cwd=VERIF, timeout=900)
+            except subprocess.TimeoutExpired:
+                results[p] = {"exit": 2, "report": ["no verdict within 900 s (recorded as undecided)"]}
+                continue
             lines = [l for l in r.stdout.splitlines() if "VIOLATION" in l or "ANALYSIS-ERROR" in l or " — " in l]
             results[p] = {"exit": r.returncode, "report": [l[:500].replace(wt + "/", "") for l in lines[:4]]}
         meta = {"id": bid, "tests_rc": t.returncode, "checks": results,
